@@ -43,16 +43,17 @@ def check(ctx):
         rebuilt = [n for n in ast.walk(loop) if isinstance(n, ast.Assign) and norm(n.targets[0]) == 'remaining_text'
                    and isinstance(n.value, ast.JoinedStr)]
         if len(rebuilt) != 1:
-            raise AnalysisError("TractParser.parse: remaining_text rebuild not found in an extraction loop")
+            ctx.undecided('SEP', f"extraction loop over {rv.name}", 'remaining_text rebuild not recognised')
+            continue
         consts = [v.value for v in rebuilt[0].value.values if isinstance(v, ast.Constant)]
         fvals = [v for v in rebuilt[0].value.values if isinstance(v, ast.FormattedValue)]
         sep = ''.join(consts)
         seps.append(sep)
         ok = len(fvals) == 2 and len(consts) == 1 and sep != ''
-        ctx.check(ok, 'SEP', f"extraction loop over {rv.name}: remnants are joined with a non-empty separator",
-                  f"separator {sep!r}", "the text before and after an extracted element is glued together: "
-                  "neighbouring elements fuse into new matches", key=f"SEP|TractParser.parse|{rv.name}|nonempty",
-                  where=common.loc(fi, rebuilt[0]))
+        ctx.tri(ok, len(fvals) == 2 and sep == '', 'SEP', f"extraction loop over {rv.name}: remnants are joined with a non-empty separator",
+                f"separator {sep!r}", "the text before and after an extracted element is glued together: "
+                "neighbouring elements fuse into new matches", key=f"SEP|TractParser.parse|{rv.name}|nonempty",
+                where=common.loc(fi, rebuilt[0]))
         if sep:
             for rname, r2 in (('multilot_with_aliquot_regex', mlwa), ('aliquot_unpacker_regex', aunp)):
                 L = common.lang(ctx, r2)
@@ -68,48 +69,39 @@ def check(ctx):
         t = ' '.join(norm(s) for s in ast.walk(loop) if isinstance(s, ast.stmt))
         ok = ('remaining_text[:lot_aliq_mo.start()]' in t and 'remaining_text[lot_aliq_mo.end():]' in t) or \
              ('aliq_mo.start(), aliq_mo.end()' in t and 'remaining_text[:start]' in t and 'remaining_text[end:]' in t)
-        ctx.check(ok, 'SEP', f"loop over {rv.name} removes exactly the matched span",
-                  detail_bad="the rebuilt text no longer keeps everything before the match start and after its end",
-                  key=f"SEP|{rv.name}|span")
+        ctx.shape(ok, 'SEP', f"loop over {rv.name} removes exactly the matched span")
         srch = [c for c in ast.walk(loop) if isinstance(c, ast.Call) and isinstance(c.func, ast.Attribute) and c.func.attr == 'search']
-        ctx.check(bool(srch) and norm(srch[0].func.value) == rv.name and norm(srch[0].args[0]) == 'remaining_text', 'SEP',
-                  f"loop searches remaining_text with {rv.name}", detail_bad="loop regex / subject changed",
-                  key=f"SEP|{rv.name}|search")
-    ctx.check(len(set(seps)) == 1, 'SEP', 'both loops use the same separator', detail_bad=f"separators {seps}",
-              key="SEP|TractParser.parse|same")
+        ctx.shape(bool(srch) and norm(srch[0].func.value) == rv.name and norm(srch[0].args[0]) == 'remaining_text', 'SEP',
+                  f"loop searches remaining_text with {rv.name}")
+    ctx.shape(len(set(seps)) == 1, 'SEP', 'both loops use the same separator')
     t = ' '.join(norm(s) for s in walk_local(fi.node) if isinstance(s, ast.stmt))
-    ctx.check("leading_aliquot = lot_aliq_mo['aliquot']" in t and "lot_text = lot_aliq_mo['lots']" in t, 'DEFUSE',
-              "lot blocks come from the 'lots' group, the division from the 'aliquot' group",
-              detail_bad="group usage changed", key="DEFUSE|TractParser.parse|groups")
+    ctx.shape("leading_aliquot = lot_aliq_mo['aliquot']" in t and "lot_text = lot_aliq_mo['lots']" in t, 'DEFUSE',
+              "lot blocks come from the 'lots' group, the division from the 'aliquot' group")
     gf = common.group_facts(ctx, mlwa)
     ctx.check('aliquot' in gf and gf['aliquot'].optional and 'lots' in gf and not gf['lots'].optional, 'RX-GROUPS',
               'multilot_with_aliquot_regex: optional aliquot, mandatory lots', detail_bad="group structure changed",
               key="RX-GROUPS|multilot_with_aliquot_regex")
     # lot divisions
     ifs = [n for n in walk_local(fi.node) if isinstance(n, ast.If) and 'leading_aliquot' in norm(n.test)]
-    ok = any(norm(n.test) == 'not suppress_lot_divs and leading_aliquot is not None' for n in ifs)
-    ctx.check(ok, 'DEFUSE', 'a leading aliquot qualifies lots only when divisions are not suppressed and one was found',
-              detail_bad=f"guard is {[norm(n.test) for n in ifs]}", key="DEFUSE|TractParser.parse|divguard")
-    ctx.check('for idx in range(unpacker.aliquots_through)' in t
+    ok = any('suppress_lot_divs' in norm(n.test) and 'leading_aliquot' in norm(n.test) for n in ifs)
+    nosupp = bool(ifs) and not any('suppress_lot_divs' in norm(x) for n in ifs for x in [n.test] + [t for t, _ in guards(n)])
+    ctx.tri(ok, nosupp, 'DEFUSE', 'a leading aliquot qualifies lots only when divisions are not suppressed and one was found',
+            detail_bad=f"the division is applied under {[norm(n.test) for n in ifs]}: suppress_lot_divs is ignored",
+            key="DEFUSE|TractParser.parse|divguard")
+    ctx.shape('for idx in range(unpacker.aliquots_through)' in t
               and "new_lots[idx] = f'{leading_aliquot} of {new_lots[idx]}'" in t.replace('"', "'"), 'DEFUSE',
-              'the division is applied to the first aliquots_through lots of the block',
-              detail_bad="division loop changed", key="DEFUSE|TractParser.parse|divloop")
-    ctx.check('self.lots.extend(new_lots)' in t and 'self.qqs.extend(new_qqs)' in t
+              'the division is applied to the first aliquots_through lots of the block')
+    ctx.shape('self.lots.extend(new_lots)' in t and 'self.qqs.extend(new_qqs)' in t
               and 'self.aliquots_whole.append(remove_fractions(aliq_block))' in t, 'DEFUSE',
-              'results are accumulated in reading order (extend/append only)', detail_bad="accumulation changed",
-              key="DEFUSE|TractParser.parse|accumulate")
-    ctx.check('for txt in aliquot_blocks' in t and 'parse_aliquot(txt, qq_depth_min, qq_depth_max, qq_depth, break_halves)' in t,
-              'DEFUSE', 'every aliquot block is parsed on its own with the locked depth settings',
-              detail_bad="aliquot block loop changed", key="DEFUSE|TractParser.parse|blocks")
-    ctx.check("if all_mo['context'] is None" in t and 'aliquot_blocks.append(_ALL)' in t, 'DEFUSE',
-              "'ALL' is an aliquot only without trailing context", detail_bad="ALL handling changed",
-              key="DEFUSE|TractParser.parse|ALL")
+              'results are accumulated in reading order (extend/append only)')
+    ctx.shape('for txt in aliquot_blocks' in t and 'parse_aliquot(txt, qq_depth_min, qq_depth_max, qq_depth, break_halves)' in t,
+              'DEFUSE', 'every aliquot block is parsed on its own with the locked depth settings')
+    ctx.shape("if all_mo['context'] is None" in t and 'aliquot_blocks.append(_ALL)' in t, 'DEFUSE',
+              "'ALL' is an aliquot only without trailing context")
     lq = ctx.repo.func('Tract.lots_qqs')
-    ctx.check(norm(lq.node.body[-1]) == 'return self.lots + self.qqs', 'DEFUSE', 'lots_qqs == lots + qqs',
-              detail_bad=f"`{norm(lq.node.body[-1])}`", key="DEFUSE|Tract.lots_qqs")
+    ctx.shape(norm(lq.node.body[-1]) == 'return self.lots + self.qqs', 'DEFUSE', 'lots_qqs == lots + qqs')
     il = ctx.repo.func('Tract.ilots')
-    ctx.check('for lt in self.lots' in norm(il.node.body[-1]), 'DEFUSE', 'ilots mirrors lots element-wise',
-              detail_bad="ilots changed", key="DEFUSE|Tract.ilots")
+    ctx.shape('for lt in self.lots' in norm(il.node.body[-1]), 'DEFUSE', 'ilots mirrors lots element-wise')
     ctx.attempt(_dups)
     ctx.attempt(_unpack_lots)
     ctx.attempt(_acreage)
@@ -144,16 +136,43 @@ def _dups(ctx):
               f"with enumerate(start={start}) the tail `lst[{norm(lo) if lo else ''}:]` starts "
               f"{d.const - (1 - start) if d.is_const() else '?'} element(s) too late/early: an element repeated "
               f"right next to itself is not reported", key="DEFUSE|find_duplicates|tail", where=common.loc(fd, tails[0]))
+    # an early `if i == <last>: break` must not stop before the last pair
+    brk = [n for n in ast.walk(loop) if isinstance(n, ast.If) and any(isinstance(x, ast.Break) for x in n.body)
+           and isinstance(n.test, ast.Compare) and isinstance(n.test.ops[0], ast.Eq) and norm(n.test.left) == ivar]
+    if brk:
+        bound = brk[0].test.comparators[0]
+        cfg, rd = flow.analyse(fd.node)
+        forms = []
+        if isinstance(bound, ast.Name):
+            for d in rd.reaching(cfg.node_of(brk[0]), bound.id):
+                v = rd.defs[d]
+                forms.append(lin(v) if isinstance(v, ast.AST) else None)
+        else:
+            forms.append(lin(bound))
+        lenname = f"len({norm(loop.iter.args[0])})"
+        for lf2 in forms:
+            if lf2 is None:
+                ctx.undecided('DEFUSE', 'find_duplicates early break', 'bound not linear')
+                continue
+            d2 = lf2 - Lin({lenname: 1})
+            if not d2.is_const():
+                ctx.undecided('DEFUSE', 'find_duplicates early break', f"bound {lf2!r} not in terms of {lenname}")
+                continue
+            # 1-based position of the last element that still has a later neighbour: len - 1 + (start - 1) ... stop allowed from len + start - 1
+            ok_b = d2.const >= start - 1
+            ctx.check(ok_b, 'DEFUSE', 'find_duplicates: the early break only skips the very last element',
+                      f"break at {ivar} == {lf2!r} with enumerate(start={start})",
+                      f"the loop stops at {ivar} == {lf2!r} (enumerate start {start}): the second-to-last element is never "
+                      f"compared with the last, so a duplicate at the end of the list is not reported",
+                      key="DEFUSE|find_duplicates|break", where=common.loc(fd, brk[0]))
     t = ' '.join(norm(s) for s in walk_local(gf.node) if isinstance(s, ast.stmt))
-    ctx.check('dup_lots = find_duplicates(self.lots)' in t and 'dup_qqs = find_duplicates(self.qqs)' in t
+    ctx.shape('dup_lots = find_duplicates(self.lots)' in t and 'dup_qqs = find_duplicates(self.qqs)' in t
               and 'if dup_lots' in t and 'if dup_qqs' in t, 'DEFUSE',
-              'duplicates are looked for in both lots and aliquots', detail_bad="duplicate checks changed",
-              key="DEFUSE|gen_flags|both")
+              'duplicates are looked for in both lots and aliquots')
     n = pair_sites(ctx, [gf])
     ctx.floor('gen_flags flag sites', n, 2)
     tp = ctx.repo.func('TractParser.parse')
-    ctx.check('self.gen_flags()' in [norm(s) for s in tp.node.body], 'DEFUSE', 'parse() always runs gen_flags()',
-              detail_bad="gen_flags no longer called unconditionally", key="DEFUSE|TractParser.parse|gen_flags")
+    ctx.shape('self.gen_flags()' in [norm(s) for s in tp.node.body], 'DEFUSE', 'parse() always runs gen_flags()')
 
 
 def _unpack_lots(ctx):
@@ -173,14 +192,12 @@ def _unpack_lots(ctx):
               f"the test `{norm(tests[0].test)}` can see found_through from {sorted(vals)}: it reads the previous "
               f"iteration's value, so 'N/2 of Lot 1 - Lot 3' divides the wrong number of lots",
               key="DEFUSE|unpack_lots|found_through", where=common.loc(fi, tests[0]))
-    ctx.check(norm(tests[0].test) == "lot_mo['word_lot_rightmost'] is not None and (not found_through)", 'DEFUSE',
-              "a repeated 'Lot' word counts unless it follows 'through'", detail_bad=f"test is `{norm(tests[0].test)}`",
-              key="DEFUSE|unpack_lots|wordlot-test")
+    ctx.shape(norm(tests[0].test) == "lot_mo['word_lot_rightmost'] is not None and (not found_through)", 'DEFUSE',
+              "a repeated 'Lot' word counts unless it follows 'through'")
     t = ' '.join(norm(s) for s in walk_local(fi.node) if isinstance(s, ast.stmt))
-    ctx.check('word_lot_encountered = len(working_lot_list)' in t
+    ctx.shape('word_lot_encountered = len(working_lot_list)' in t
               and 'self.aliquots_through = len(working_lot_list) - word_lot_encountered' in t, 'DEFUSE',
-              'aliquots_through = lots left of the second Lot word', detail_bad="aliquots_through arithmetic changed",
-              key="DEFUSE|unpack_lots|aliquots_through")
+              'aliquots_through = lots left of the second Lot word')
     # acreage recorded for every lot kind: not nested under the found_through branch
     acre = [n for n in walk_local(fi.node) if isinstance(n, ast.If) and norm(n.test) == 'lot_acreage is not None']
     if len(acre) != 1:
@@ -192,34 +209,29 @@ def _unpack_lots(ctx):
               f"the acreage block is nested under {gs}: an acreage on the lot that starts a range is dropped",
               key="DEFUSE|unpack_lots|acreage-branch", where=common.loc(fi, acre[0]))
     body = ' '.join(norm(s) for s in ast.walk(acre[0]) if isinstance(s, ast.stmt))
-    ctx.check("lot_name = f'L{lot_num}'" in body.replace('"', "'") and 'self.lot_acres[lot_name] = lot_acreage' in body,
-              'DEFUSE', 'the acreage is stored under the lot just found', detail_bad="acreage attribution changed",
-              key="DEFUSE|unpack_lots|acreage-key")
+    ctx.shape("lot_name = f'L{lot_num}'" in body.replace('"', "'") and 'self.lot_acres[lot_name] = lot_acreage' in body,
+              'DEFUSE', 'the acreage is stored under the lot just found')
     n = pair_sites(ctx, [fi])
     ctx.floor('unpack_lots flag sites', n, 2)
-    ctx.check("working_lot_list = [f'L{lot_num}' for lot_num in working_lot_list]" in t.replace('"', "'"), 'DEFUSE',
-              "lots are rendered 'L<n>'", detail_bad="lot rendering changed", key="DEFUSE|unpack_lots|render")
+    ctx.shape("working_lot_list = [f'L{lot_num}' for lot_num in working_lot_list]" in t.replace('"', "'"), 'DEFUSE',
+              "lots are rendered 'L<n>'")
 
 
 def _acreage(ctx):
     fi = ctx.repo.func('unpackers:get_rightmost_acreage')
     t = ' '.join(norm(s) for s in walk_local(fi.node) if isinstance(s, ast.stmt))
-    ctx.check('i = start_of_rightmost(multilot_mo)' in t and 'j = multilot_mo.end(0)' in t
+    ctx.shape('i = start_of_rightmost(multilot_mo)' in t and 'j = multilot_mo.end(0)' in t
               and 'lot_acres_unpacker_regex.search(multilot_mo.string, pos=i, endpos=j)' in t, 'DEFUSE',
-              'the acreage is searched between the start of the rightmost element and the end of the match',
-              detail_bad="acreage search window changed", key="DEFUSE|get_rightmost_acreage|window")
-    ctx.check("acreage_mo['acreage']" in t, 'DEFUSE', "acreage text comes from the 'acreage' group",
-              detail_bad="group changed", key="DEFUSE|get_rightmost_acreage|group")
+              'the acreage is searched between the start of the rightmost element and the end of the match')
+    ctx.shape("acreage_mo['acreage']" in t, 'DEFUSE', "acreage text comes from the 'acreage' group")
     rv = ctx.fold.get('rgxlib.lots', 'lot_acres_unpacker_regex')
     L = common.lang(ctx, rv)
     for s in ('1(38.29)', '12 [40.00]', '3 (40)'):
         ctx.check(L.fullmatch(s), 'RX-LANG', f"lot_acres_unpacker_regex matches {s!r}",
                   detail_bad=f"{s!r} no longer recognised as lot + acreage", key=f"RX-LANG|lot_acres_unpacker_regex|{s}")
     for ch in '[]()':
-        ctx.check(f"acreage_string.replace('{ch}', '')" in t, 'DEFUSE', f"brackets {ch!r} stripped from the acreage",
-                  detail_bad="bracket stripping changed", key=f"DEFUSE|get_rightmost_acreage|strip{ch}")
+        ctx.shape(f"acreage_string.replace('{ch}', '')" in t, 'DEFUSE', f"brackets {ch!r} stripped from the acreage")
     tp = ctx.repo.func('TractParser.parse')
     t = ' '.join(norm(s) for s in walk_local(tp.node) if isinstance(s, ast.stmt))
-    ctx.check('for lot_, acres_ in unpacker.lot_acres.items()' in t and 'self.lot_acres[lot_] = acres_' in t, 'DEFUSE',
-              "each block's acreages are merged into the tract's lot_acres", detail_bad="acreage merge changed",
-              key="DEFUSE|TractParser.parse|lot_acres")
+    ctx.shape('for lot_, acres_ in unpacker.lot_acres.items()' in t and 'self.lot_acres[lot_] = acres_' in t, 'DEFUSE',
+              "each block's acreages are merged into the tract's lot_acres")
